@@ -132,6 +132,9 @@ def enclosing_func_node(node):
 class Model:
     """Parsed view of the shipped packages of the repository."""
 
+    inline = False
+    _inlined_view = None
+
     def __init__(self, sources=None, root=None, inline=False):
         self.inline = inline
         self._inlined_view = None
